@@ -143,7 +143,23 @@ theorem sched_cancel (w : Word) : TaskState.isScheduled (TaskState.setCancelled 
 theorem sched_dropped (w : Word) : TaskState.isScheduled (TaskState.setDropped w) = TaskState.isScheduled w := by simp
 theorem sched_finrun (w : Word) : TaskState.isScheduled (TaskState.finishRunning w) = TaskState.isScheduled w := by simp
 theorem canc_start (w : Word) : TaskState.isCancelled (TaskState.startScheduling w) = TaskState.isCancelled w := by simp
-theorem canc_new : TaskState.isCancelled (TaskState.new 2) = false := by simp [TaskState.new, Word.zero, Word.withCount]
+theorem canc_finish (w : Word) : TaskState.isCancelled (TaskState.finishScheduling w) = TaskState.isCancelled w := by simp
+theorem canc_unsched (w : Word) : TaskState.isCancelled (TaskState.unschedule w) = TaskState.isCancelled w := by simp
+theorem canc_cancel (w : Word) : TaskState.isCancelled (TaskState.setCancelled w) = true := by simp
+theorem canc_dropped (w : Word) : TaskState.isCancelled (TaskState.setDropped w) = true := by simp
+theorem canc_finrun (w : Word) : TaskState.isCancelled (TaskState.finishRunning w) = TaskState.isCancelled w := by simp
+theorem compl_unsched (w : Word) : TaskState.isCompleted (TaskState.unschedule w) = TaskState.isCompleted w := by simp
+theorem compl_start (w : Word) : TaskState.isCompleted (TaskState.startScheduling w) = TaskState.isCompleted w := by simp
+theorem compl_finish (w : Word) : TaskState.isCompleted (TaskState.finishScheduling w) = TaskState.isCompleted w := by simp
+theorem compl_cancel (w : Word) : TaskState.isCompleted (TaskState.setCancelled w) = TaskState.isCompleted w := by simp
+theorem compl_dropped (w : Word) : TaskState.isCompleted (TaskState.setDropped w) = TaskState.isCompleted w := by simp
+theorem compl_finrun (w : Word) : TaskState.isCompleted (TaskState.finishRunning w) = true := by simp
+theorem canc_new : TaskState.isCancelled (TaskState.new 2) = false := by
+  simp [TaskState.new, Word.zero, Word.withCount]
+theorem sched_new : TaskState.isScheduled (TaskState.new 2) = false := by
+  simp [TaskState.new, Word.zero, Word.withCount]
+theorem compl_new : TaskState.isCompleted (TaskState.new 2) = false := by
+  simp [TaskState.new, Word.zero, Word.withCount]
 
 end word
 
